@@ -197,8 +197,16 @@ def run(ctx):
             if id(lg) in seen or not isinstance(lg, _ObjVal):
                 continue
             seen.add(id(lg))
-            fn = lg.attrs.get('_get_cause_enumerator_item')
-            ctx.require(isinstance(fn, FuncVal), f'logic object of {sign_name(s)} has no _get_cause_enumerator_item')
+            # the per-class item picker, by role: the slot that enumerate_cause_items() calls on self with the cause
+            eci = lg.cls.find('enumerate_cause_items')
+            slot = None
+            if isinstance(eci, FuncVal):
+                for c_ in ast.walk(eci.node):
+                    if isinstance(c_, ast.Call) and isinstance(c_.func, ast.Attribute) and dotted(c_.func.value) == 'self' \
+                            and isinstance(lg.attrs.get(c_.func.attr), FuncVal):
+                        slot = c_.func.attr
+            fn = lg.attrs.get(slot) if slot else None
+            ctx.require(isinstance(fn, FuncVal), f'logic object of {sign_name(s)}: the item picker called by enumerate_cause_items was not found')
             for is_random in (True, False):
                 for seq in ((True, False) if fam == 'quasi' else (True,)):
                   for other in (True, False):
